@@ -1766,7 +1766,9 @@ Section ApplyDefault.
   Variable e : env.
   Variable so : set_order.
   Variable X : ext_oracle.
-  Variable base : heap.
+  Variable mobj : pystr -> pystr.               (* the object that is member n of the class body *)
+  Variable VM : members -> heap.                (* the heap in which the member objects are as [ms] says *)
+  Variable h0 : heap.                           (* the heap the function is called in *)
   Variable s : classstmt.                       (* its _required / _optional *)
   Variable defs : list (pystr * defval).        (* the `= value` of the annotated fields: cls_dict["_defaults"] *)
   Variable ents : list (pystr * pyval).         (* the class dict *)
@@ -1801,16 +1803,21 @@ Section ApplyDefault.
   Hypothesis Hnorm : defaults_normal pre = true.
   Hypothesis Hmem : forallb member_ok pre = true.
   Hypothesis Hdefs : forallb (fun nd => eqd_plain (snd nd)) defs = true.
-  Hypothesis Hbase : forall n, base (fobj n) n__default = None.
+  Hypothesis HVM_default : forall ms n,
+    VM ms (mobj n) n__default =
+    match alist_get ms n with Some (MField fo) => Some (default_attr (fo_default fo)) | _ => None end.
+  Hypothesis HVM_set : forall ms n fo fo', alist_get ms n = Some (MField fo) ->
+    heap_eq (heap_set (VM ms) (mobj n) n__default (default_attr (fo_default fo'))) (VM (alist_set ms n (MField fo'))).
+  Hypothesis Hh0 : heap_eq h0 (VM pre).
   (* the class dict holds the member objects, _required and _optional as the statement gives them *)
-  Hypothesis Hent : forall n, In n (map fst pre) -> alist_get ents n = Some (fld_ref n).
+  Hypothesis Hent : forall n, In n (map fst pre) -> alist_get ents n = Some (ref (mobj n)).
   Hypothesis Hreq : alist_get ents (s2p "_required") = option_map v_names (s_required s).
   Hypothesis Hopt : alist_get ents (s2p "_optional") = option_map v_names (s_optional s).
   (* Field._try_default_value(v): the field validates v (Fields/SetChain.v [vset]) and changes nothing else *)
   Hypothesis HX : forall hh n fo v, alist_get pre n = Some (MField fo) ->
-    X (s2p "._try_default_value") hh [fld_ref n; v] =
+    X (s2p "._try_default_value") hh [ref (mobj n); v] =
     match vset re_match e (fo_field fo) v with
-    | Ok _ => Ok (hh, PNone, [fld_ref n; v])
+    | Ok _ => Ok (hh, PNone, [ref (mobj n); v])
     | Raise x => Raise x
     end.
 
@@ -1876,11 +1883,11 @@ Section ApplyDefault.
   Qed.
 
   Lemma getattr_def_fld h n a d :
-    dv_getattr_def h (fld_ref n) a d = Ok (match h (fobj n) a with Some v => v | None => d end).
-  Proof. unfold fld_ref, ref. cbn [dv_getattr_def obj_getattr_def]. rewrite pystr_eqb_refl. reflexivity. Qed.
+    dv_getattr_def h (ref (mobj n)) a d = Ok (match h (mobj n) a with Some v => v | None => d end).
+  Proof. unfold ref. cbn [dv_getattr_def obj_getattr_def]. rewrite pystr_eqb_refl. reflexivity. Qed.
 
-  Lemma setattr_fld h n a v : dv_setattr h (fld_ref n) a v = Ok (heap_set h (fobj n) a v).
-  Proof. unfold fld_ref, ref. cbn [dv_setattr]. rewrite pystr_eqb_refl. reflexivity. Qed.
+  Lemma setattr_fld h n a v : dv_setattr h (ref (mobj n)) a v = Ok (heap_set h (mobj n) a v).
+  Proof. unfold ref. cbn [dv_setattr]. rewrite pystr_eqb_refl. reflexivity. Qed.
 
   (* what the loop knows about the member objects while it runs *)
   Definition good (n : pystr) (m : member) : Prop :=
@@ -1908,24 +1915,24 @@ Section ApplyDefault.
     - intros n Hn Hg. apply alist_get_None_notin in Hg. contradiction.
   Qed.
 
-  Theorem apply_default_src :
+  Theorem apply_default_gen :
     match mapM apply_member pre with
     | Ok own =>
-        exists h' req, Permutation req (own_required s own) /\ heap_eq h' (members_heap base own) /\
-          DefineSrc.apply_default_and_update_required so X (members_heap base pre) (PDict (skeys ents)) v_defs
+        exists h' req, Permutation req (own_required s own) /\ heap_eq h' (VM own) /\
+          DefineSrc.apply_default_and_update_required so X (h0) (PDict (skeys ents)) v_defs
                                                        (v_names (map fst pre)) =
           Ok (h', PNone, PDict (skeys (alist_set ents (s2p "_required") (v_names req))))
     | Raise x =>
-        DefineSrc.apply_default_and_update_required so X (members_heap base pre) (PDict (skeys ents)) v_defs
+        DefineSrc.apply_default_and_update_required so X (h0) (PDict (skeys ents)) v_defs
                                                      (v_names (map fst pre)) = Raise x
     end.
   Proof.
     unfold DefineSrc.apply_default_and_update_required. cbv zeta.
     rewrite !dict_get_skeys_def, Hreq, Hopt. cbn [bind].
-    assert (Er : dv_set_of so (deref (members_heap base pre) match option_map v_names (s_required s) with Some v => v | None => PList [] end)
+    assert (Er : dv_set_of so (deref (h0) match option_map v_names (s_required s) with Some v => v | None => PList [] end)
                  = Ok (PSet false (v_strs (dedup_str (opt_list (s_required s)))))).
     { destruct (s_required s) as [l|]; cbn [option_map opt_list]; [unfold v_names; rewrite deref_list; apply set_of_list|reflexivity]. }
-    assert (Eo : dv_set_of so (deref (members_heap base pre) match option_map v_names (s_optional s) with Some v => v | None => PList [] end)
+    assert (Eo : dv_set_of so (deref (h0) match option_map v_names (s_optional s) with Some v => v | None => PList [] end)
                  = Ok (PSet false (v_strs (dedup_str (opt_list (s_optional s)))))).
     { destruct (s_optional s) as [l|]; cbn [option_map opt_list]; [unfold v_names; rewrite deref_list; apply set_of_list|reflexivity]. }
     rewrite Er, Eo. cbn [bind]. rewrite in_skeys. cbn [bind].
@@ -1936,10 +1943,10 @@ Section ApplyDefault.
     set (R0 := dedup_str (opt_list (s_required s))).
     set (OPT := dedup_str (opt_list (s_optional s))).
     assert (Hloop : forall ns, (forall n, In n ns -> In n (map fst pre)) ->
-              forall ms hcur r, heap_eq hcur (members_heap base ms) -> inv ms ->
+              forall ms hcur r, heap_eq hcur (VM ms) -> inv ms ->
               match apply_all2 ms r ns with
               | Ok (own, r') =>
-                  exists h', heap_eq h' (members_heap base own) /\
+                  exists h', heap_eq h' (VM own) /\
                     dv_foldM BODY (v_strs ns) (hcur, PSet false (v_strs r)) = Ok (h', PSet false (v_strs r'))
               | Raise x => dv_foldM BODY (v_strs ns) (hcur, PSet false (v_strs r)) = Raise x
               end).
@@ -1954,16 +1961,14 @@ Section ApplyDefault.
         (* the current object *)
         unfold apply_step. destruct (alist_get ms n) as [m|] eqn:Egm; [|exfalso; exact (Hpres n Hn Egm)].
         pose proof (Hgood n m Egm) as Hgm.
-        assert (Ehd : hcur (fobj n) n__default = match m with MField fo => Some (default_attr (fo_default fo)) | MConst _ => None end).
-        { rewrite Heq. unfold members_heap, fobj. rewrite strip_prefix_app, Egm. destruct m as [fo|v]; cbn [member_attr].
-          - rewrite pystr_eqb_refl. reflexivity.
-          - apply Hbase. }
+        assert (Ehd : hcur (mobj n) n__default = match m with MField fo => Some (default_attr (fo_default fo)) | MConst _ => None end).
+        { rewrite Heq, HVM_default, Egm. destruct m; reflexivity. }
         change (s2p "_default") with n__default. rewrite Ehd.
         (* the update of the required set, whatever the object has become *)
-        assert (Htail : forall hX m', hX (fobj n) n__default = match m' with MField fo => Some (default_attr (fo_default fo)) | MConst _ => None end ->
+        assert (Htail : forall hX m', hX (mobj n) n__default = match m' with MField fo => Some (default_attr (fo_default fo)) | MConst _ => None end ->
                   good n m' ->
                   (v_required_fields_41 <-
-                   (c <- (t35 <- dv_getattr_def hX (fld_ref n) n__default PNone;; Ok (py_is_not_none t35));;
+                   (c <- (t35 <- dv_getattr_def hX (ref (mobj n)) n__default PNone;; Ok (py_is_not_none t35));;
                     (if c
                      then v_required_fields_37 <-
                           (c0 <- dv_in (PStr n) (PSet false (v_strs r));;
@@ -2026,13 +2031,13 @@ Section ApplyDefault.
                assert (Edn : default_val d = default_attr (fo_default fo')).
                { subst fo'. cbn [fo_default]. destruct d as [[]|v]; reflexivity. }
                rewrite Hfld. fold fo'. rewrite Edn.
-               assert (Heq' : heap_eq (heap_set hcur (fobj n) n__default (default_attr (fo_default fo'))) (members_heap base (alist_set ms n (MField fo')))).
-               { intros o a. rewrite <- (members_heap_set base ms n fo fo' Egm o a). unfold heap_set. rewrite Heq. reflexivity. }
+               assert (Heq' : heap_eq (heap_set hcur (mobj n) n__default (default_attr (fo_default fo'))) (VM (alist_set ms n (MField fo')))).
+               { intros o a. rewrite <- (HVM_set ms n fo fo' Egm o a). unfold heap_set. rewrite Heq. reflexivity. }
                assert (Hg' : good n (MField fo')).
                { cbn [good]. split; [exists fo0; split; [exact Hpre0|exact Hfld]|]. subst fo'. cbn [fo_default].
                  destruct d as [v|v]; cbn [eqd_plain] in Hpl; [|split; [exact I|reflexivity]].
                  destruct v; cbn [norm_default lit_ok]; try (split; [exact I|reflexivity]). discriminate. }
-               assert (EhX : heap_set hcur (fobj n) n__default (default_attr (fo_default fo')) (fobj n) n__default = Some (default_attr (fo_default fo'))).
+               assert (EhX : heap_set hcur (mobj n) n__default (default_attr (fo_default fo')) (mobj n) n__default = Some (default_attr (fo_default fo'))).
                { unfold heap_set. rewrite !pystr_eqb_refl. reflexivity. }
                use_tail (Htail _ (MField fo') EhX Hg'). cbn [bind].
                apply (IH Ht _ _ _ Heq').
@@ -2052,7 +2057,7 @@ Section ApplyDefault.
           cbn [good] in Hgm. rewrite Hgm. cbn [py_and bind]. rewrite Egm.
           use_tail (Htail hcur (MConst cv) Ehd Hgm). cbn [bind].
           apply (IH Ht ms hcur _ Heq (conj Hgood Hpres)). }
-    specialize (Hloop (map fst pre) (fun n H => H) pre (members_heap base pre) R0 (fun o a => eq_refl) inv_pre).
+    specialize (Hloop (map fst pre) (fun n H => H) pre h0 R0 Hh0 inv_pre).
     pose proof (apply_all2_spec pre [] R0 Hnd) as Hspec. cbn [app] in Hspec. rewrite Hspec in Hloop. clear Hspec.
     destruct (mapM apply_member pre) as [own|x]; cbn [bind] in Hloop.
     - destruct Hloop as [h' [Heq' Hf]]. rewrite Hf. cbn [bind]. cbv beta iota.
@@ -2062,6 +2067,40 @@ Section ApplyDefault.
     - unfold v_names. rewrite deref_list. cbn [dv_iter bind]. fold (v_strs (map fst pre)). rewrite Hloop. reflexivity.
   Qed.
 End ApplyDefault.
+
+(* the same for the heap [members_heap base pre], where member n is the object "field:n" *)
+Theorem apply_default_src (re_match : N -> pystr -> bool) (e : env) (so : set_order) (X : ext_oracle) (base : heap)
+    (s : classstmt) (defs : list (pystr * defval)) (ents : list (pystr * pyval)) (pre : members) :
+  so_ok so -> NoDup (map fst pre) -> defaults_normal pre = true ->
+  forallb (member_ok defs) pre = true -> forallb (fun nd => eqd_plain (snd nd)) defs = true ->
+  (forall n, base (fobj n) n__default = None) ->
+  (forall n, In n (map fst pre) -> alist_get ents n = Some (fld_ref n)) ->
+  alist_get ents (s2p "_required") = option_map v_names (s_required s) ->
+  alist_get ents (s2p "_optional") = option_map v_names (s_optional s) ->
+  (forall hh n fo v, alist_get pre n = Some (MField fo) ->
+     X (s2p "._try_default_value") hh [fld_ref n; v] =
+     match vset re_match e (fo_field fo) v with
+     | Ok _ => Ok (hh, PNone, [fld_ref n; v])
+     | Raise x => Raise x
+     end) ->
+  match mapM (apply_member re_match e defs) pre with
+  | Ok own =>
+      exists h' req, Permutation req (own_required s own) /\ heap_eq h' (members_heap base own) /\
+        DefineSrc.apply_default_and_update_required so X (members_heap base pre) (PDict (skeys ents)) (v_defs defs)
+                                                     (v_names (map fst pre)) =
+        Ok (h', PNone, PDict (skeys (alist_set ents (s2p "_required") (v_names req))))
+  | Raise x =>
+      DefineSrc.apply_default_and_update_required so X (members_heap base pre) (PDict (skeys ents)) (v_defs defs)
+                                                   (v_names (map fst pre)) = Raise x
+  end.
+Proof.
+  intros Hso Hnd Hnorm Hmem Hdefs Hbase Hent Hreq Hopt HX.
+  apply (apply_default_gen re_match e so X fobj (members_heap base) (members_heap base pre) s defs ents pre); try assumption.
+  - intros ms n. unfold members_heap, fobj. rewrite strip_prefix_app.
+    destruct (alist_get ms n) as [[fo|v]|]; cbn [member_attr]; [rewrite pystr_eqb_refl; reflexivity|apply Hbase|apply Hbase].
+  - intros ms n fo fo' Hg. apply (members_heap_set base ms n fo fo' Hg).
+  - intros o a. reflexivity.
+Qed.
 
 (* The class body first builds every Field object ([field_init], the Field constructors run while the body is
    executed), then StructMeta.__new__ applies the `= value` defaults.  When the constructors all succeed, the
